@@ -2,7 +2,7 @@
    path, which re-locks top-down, gives back exactly the object) *)
 From Coq Require Import ZArith List Bool Arith Lia String.
 Import ListNotations.
-From TD Require Import Model.C11_Layout Model.C11_Tree Proofs.C11_LayoutP Proofs.C11_TreeP Proofs.C11_HistP.
+From TD Require Import Model.C11_Layout Model.C11_Tree Proofs.C11_LayoutP Proofs.C11_TreeP Proofs.C11_AuxP Proofs.C11_PickleP Proofs.C11_HistP.
 Open Scope nat_scope.
 
 (* ------------------------------------------------------------------ forest operations *)
@@ -216,15 +216,54 @@ Proof.
   - injection Hs as <- <-. exact Hc.
 Qed.
 
-Lemma run_closed_noncons : forall ops st, forallb op_closed ops = true -> existsb is_cons ops = false ->
+(* consolidate() keeps every lock flag (fix: D110) *)
+Lemma view_locks A np tofile storage :
+  (forall t s t' e, view_t A np tofile storage t s = Ok (t', e) ->
+     lock_closed_t t' = lock_closed_t t /\ all_locked_t t' = all_locked_t t) /\
+  (forall f s f' e, view_f A np tofile storage f s = Ok (f', e) ->
+     lock_closed_f f' = lock_closed_f f /\ all_locked_f f' = all_locked_f f).
+Proof.
+  apply tree_forest_ind; cbn [view_t view_f].
+  - intros m f IH s t' e H. destruct (view_f A np tofile storage f s) as [[f' e']|] eqn:E; [|discriminate].
+    injection H as <- <-. destruct (IH s f' e' E) as [I1 I2].
+    cbn [lock_closed_t all_locked_t out_meta m_locked]. now rewrite I1, I2.
+  - intros s f' e H. injection H as <- <-. auto.
+  - intros k l v r IH s f' e H.
+    destruct (decode_leaf _ _ _ _ _) as [l'| |]; try discriminate.
+    destruct (view_f A np tofile storage r _) as [[r' e']|] eqn:E; [|discriminate]. injection H as <- <-.
+    cbn [lock_closed_f all_locked_f]. apply (IH _ _ _ E).
+  - intros k p bs r IH s f' e H.
+    destruct (view_f A np tofile storage r s) as [[r' e']|] eqn:E; [|discriminate]. injection H as <- <-.
+    cbn [lock_closed_f all_locked_f]. apply (IH _ _ _ E).
+  - intros k t IHt r IHr s f' e H.
+    destruct (view_t A np tofile storage t s) as [[t' mid]|] eqn:Et; [|discriminate].
+    destruct (view_f A np tofile storage r mid) as [[r' e']|] eqn:Er; [|discriminate]. injection H as <- <-.
+    destruct (IHt _ _ _ Et) as [I1 I2], (IHr _ _ _ Er) as [I3 I4].
+    cbn [lock_closed_f all_locked_f]. now rewrite I1, I2, I3, I4.
+Qed.
+
+Lemma step_closed st o : op_closed o = true -> lock_closed_t (cur st) = true -> lock_closed_t (cur (fst (step st o))) = true.
+Proof.
+  intros Ho Hc. unfold step.
+  destruct o; try (destruct (step_tree (cur st) _) as [[t' w]|] eqn:E;
+                   [cbn [fst cur]; eapply step_tree_closed; [exact Ho|exact Hc|exact E]|exact Hc]).
+  unfold consolidate. destruct (snap st); [exact Hc|].
+  unfold consolidate_tree.
+  destruct (view_t _ _ _ _ (cur st) 0) as [[t' e]|] eqn:E; cbn [fst cur]; [|exact Hc].
+  now rewrite (proj1 (proj1 (view_locks _ _ _ _) _ _ _ _ E)).
+Qed.
+
+(* lock closure is an invariant of EVERY history (consolidate included) *)
+Lemma run_closed : forall ops st, forallb op_closed ops = true ->
   lock_closed_t (cur st) = true -> lock_closed_t (cur (run st ops)) = true.
 Proof.
-  induction ops as [|o r IH]; intros st Ho Hn Hc; cbn [run fold_left forallb existsb] in *; [exact Hc|].
-  apply andb_true_iff in Ho as [Ho Hr]. apply orb_false_iff in Hn as [Hn1 Hn2].
-  apply IH; [exact Hr|exact Hn2|].
-  unfold step. destruct o; try discriminate;
-    (destruct (step_tree (cur st) _) as [[t' w]|] eqn:E; [cbn [fst cur]; eapply step_tree_closed; [exact Ho|exact Hc|exact E]|exact Hc]).
+  induction ops as [|o r IH]; intros st Ho Hc; cbn [run fold_left forallb] in *; [exact Hc|].
+  apply andb_true_iff in Ho as [Ho Hr]. apply IH; [exact Hr|now apply step_closed].
 Qed.
+
+Lemma run_closed_noncons : forall ops st, forallb op_closed ops = true -> existsb is_cons ops = false ->
+  lock_closed_t (cur st) = true -> lock_closed_t (cur (run st ops)) = true.
+Proof. intros ops st Ho _ Hc. now apply run_closed. Qed.
 
 (* EVERY history without consolidate(), from any lock-closed tensordict, inserting lock-closed nested tensordicts:
    pickle / deepcopy give back the object as it is at the moment of the call *)
@@ -234,4 +273,22 @@ Theorem pickle_unconsolidated_all t ops :
 Proof.
   intros Hc Ho Hn st. apply pickle_unconsolidated; [exact Hn|].
   apply (run_closed_noncons ops {| cur := t; snap := None |} Ho Hn Hc).
+Qed.
+
+(* fix: D12 -- EVERY history (consolidations, in-place and structural mutations, locks, names in any order): whenever the
+   snapshot is absent or no longer current at the moment of the call, the copy is the object itself (nothing shared with
+   the old storage) *)
+Theorem pickle_history_stale t ops :
+  lock_closed_t t = true -> forallb op_closed ops = true ->
+  let st := run {| cur := t; snap := None |} ops in
+  (match snap st with None => True | Some sn => snapshot_current st sn = false end) ->
+  pickle_roundtrip st = Ok {| cur := unview_t (cur st); snap := None |} \/
+  (snap st = None /\ pickle_roundtrip st = Ok st).
+Proof.
+  intros Hc Ho st Hs.
+  pose proof (run_closed ops {| cur := t; snap := None |} Ho Hc) as Hl. fold st in Hl.
+  destruct (snap st) as [sn|] eqn:E.
+  - left. rewrite (pickle_stale_snapshot st sn E Hs). now rewrite (proj1 relock_closed _ Hl).
+  - right. split; [reflexivity|]. unfold pickle_roundtrip. rewrite E, (proj1 relock_closed _ Hl).
+    destruct st as [c s]. cbn in *. now subst.
 Qed.
